@@ -872,7 +872,12 @@ func (c *Context) Log10(d, x *Decimal) (Condition, error) {
 	if err != nil {
 		return 0, fmt.Errorf("ln: %w", err)
 	}
+	// The final multiplication rounds to the caller's precision and exponent
+	// range; its conditions are reported through c.goError below.
 	nc.Precision = c.Precision
+	nc.MaxExponent = c.MaxExponent
+	nc.MinExponent = c.MinExponent
+	nc.Traps = 0
 
 	qr, err := nc.Mul(d, &z, decimalInvLn10.get(c.Precision+2))
 	if err != nil {
